@@ -6,12 +6,15 @@ VARIABLE hist
 GenInit == InitT /\ hist = <<obs>>
 GenNext == NextT /\ hist' = Append(hist, obs')
 GenSpec == GenInit /\ [][GenNext]_<<varsT, hist>>
-View == <<data, data2, lo, hi, ranged, kind, pos, parts>>
+View == <<data, data2, lo, hi, ranged, kind, lim2, pos, parts>>
 Emit == PrintT(<<"BEHAV", ToJson(hist')>>)
 Rng13 == {<<1, 3>>}
 Rng3 == {<<1, 3>>, <<2, 2>>, <<3, 1>>}
 Alpha5 == {0, 1, 2, 3, 4}
 Alpha3 == {0, 2, 4}
+AlphaN == {-3, -2, -1, 0, 1}      \* around the range of negative decades
+RngN == {<<-2, 0>>}
+KindsLog == {"log"}
 KindsAll == {"lin+", "lin-", "log"}
 KindsML == {"lin-", "log"}
 =============================================================================
